@@ -109,6 +109,16 @@ func cmdFunc(args []string) {
 			continue
 		}
 		gen := time.Since(t1)
+		if !*verbose {
+			// cover obligations (reachability probes, expected to fail) are only shown with -v
+			var keep []*Obligation
+			for _, o := range r.Obls {
+				if o.Kind != "cover" {
+					keep = append(keep, o)
+				}
+			}
+			r.Obls = keep
+		}
 		dischargeAll(r.Ctx, r.Obls, dir, *tier, 0, 16)
 		cnt := map[string]int{}
 		for _, o := range r.Obls {
